@@ -1010,12 +1010,45 @@ fn run_set(out: &mut impl Write, id: &str, ts: &TokSet, strings: &mut dyn FnMut(
     writeln!(out, "set {id} {}", ts.ser()).unwrap();
     writeln!(out, "kw {}", if kws.is_empty() { "-".to_string() } else { kws.iter().map(|k| k.to_string()).collect::<Vec<_>>().join(",") }).unwrap();
     writeln!(out, "ambig {}", if ambig.is_empty() { "-".to_string() } else { ambig.iter().map(|k| k.to_string()).collect::<Vec<_>>().join(",") }).unwrap();
+    // how many lex states of the emitted lexer use the ADVANCE_MAP table (render.rs emits it for a state with ≥ 8
+    // single-character transitions); the macro itself comes from the parser.h the generator embeds
+    writeln!(out, "amap {id} {}", b.parser_c.matches("ADVANCE_MAP(").count()).unwrap();
     let mut n = 0usize;
     strings(&mut |cps: &[u32]| {
         let r = real_tokens(&mut parser, cps);
         writeln!(out, "s {} {r}", cps_hex(cps)).unwrap();
         n += 1;
     });
+    // SUPPLEMENTARY-plane characters that alias a character of the token set modulo 2^16 (U+40000 + c, U+D0000 + c;
+    // planes 4 and 13 are unassigned, so no Unicode property class of a token contains them):
+    // a lexer table that keeps only 16 bits of the look-ahead would take them for c
+    let mut base: Vec<u32> = Vec::new();
+    fn chars_of(re: &Re, out: &mut Vec<u32>) {
+        match re {
+            Re::Lit(v) => out.extend(v.iter().copied()),
+            Re::Cls(_, rs) => for (a, b) in rs { out.push(*a); out.push(*b); },
+            Re::Seq(a, b) | Re::Alt(a, b) => { chars_of(a, out); chars_of(b, out); }
+            Re::Star(a) | Re::Plus(a) | Re::Opt(a) | Re::Rep(_, _, a) => chars_of(a, out),
+            Re::Alts(v) => for (_, r) in v { chars_of(r, out); },
+            Re::Prop(_) => {}
+        }
+    }
+    for t in &ts.toks { chars_of(&t.re, &mut base); }
+    base.extend(extras_chars(ts.extras));
+    base.sort(); base.dedup();
+    base.retain(|c| *c < 0x10000);
+    let first = base.iter().copied().find(|c| *c > 0x20).unwrap_or(0x61);
+    for c in base.iter().copied().take(40) {
+        for plane in [0x40000u32, 0xD0000] {
+            let x = plane + c;
+            if char::from_u32(x).is_none() { continue; }
+            for v in [vec![x], vec![first, x], vec![x, first], vec![first, 0x20, x, 0x20, first], vec![c, x, c]] {
+                let r = real_tokens(&mut parser, &v);
+                writeln!(out, "s {} {r}", cps_hex(&v)).unwrap();
+                n += 1;
+            }
+        }
+    }
     writeln!(out, "endset {id}").unwrap();
     Ok(n)
 }
